@@ -515,7 +515,7 @@ impl Property for C06 {
         "C06"
     }
     fn rule(&self) -> &'static str {
-        "every case = (role-transfer history over the 6 transferable roles of the 5 role-bearing contracts, one of 29 administrative entry points, for role transfers the named successor being an uninvolved account / the called contract itself / another contract / the current holder, optionally with the objects the call acts on (operator, minter, trusted chain, open migration window, held fees) created before the history by the holder of that time, deployments in which one address holds both roles of the gateway and of the gas service (each role must then move, or stay, on its own), one of 7 principal classes: current holder, former holder, holder of another role, beneficiary named in the arguments, stranger, nobody, holder-authorised-other-arguments). The full 29x7 matrix with an empty history is enumerated in every run (fixed cases), once in the ordinary state and once with the contract's migration window open (upgraded, not yet migrated); for the idempotent entry points (role transfers, add/remove minter, upgrade) also the variant in which the same change was already applied once; proptest adds histories of 1-5 transfers (incl. to self, to the other role's holder, and back). Engine: the authorisation trees the call needs are recorded in a twin world with all auths mocked, then replayed in a fresh identical world in which exactly one principal signs the tree recorded for the role holder. Oracle: role model: success iff that principal is the current holder (and signed these exact arguments); refusals must leave the ledger snapshot identical; after an accepted transfer the role query names exactly the successor. non-trivial = principal is not simply the initial holder (principal class != Holder, or history non-empty); distinct by Debug hash. A share of the random cases is an entry-point sweep (the exported functions of all shipped contracts are read from the sources of the tree under test; entry points absent from the pinned inventory get 300 deterministic cases each and half of the random sweep cases): one entry point is called on a fully deployed system (gateway, gas service, operators, token service with a deployed token owned by the service, stand-alone token, upgrader, example app; some contracts optionally upgraded-but-not-migrated) with arguments from pools of principals / contracts / tokens / names / ids / boundary amounts, every require_auth satisfied by the host's mock and recorded; cases where the mock let a contract sign are discarded; oracle: a change of any contract's owner, of the gateway operator, of the operator set, of the trusted chains, of a token's minters, or of a contract's code / migration state needs the current holder of the governing role among the recorded signers (or to be the called contract); non-trivial = the call succeeded"
+        "every case = (role-transfer history over the 6 transferable roles of the 5 role-bearing contracts, one of 29 administrative entry points, for role transfers the named successor being an uninvolved account / the called contract itself / another contract / the current holder, optionally with the objects the call acts on (operator, minter, trusted chain, open migration window, held fees) created before the history by the holder of that time, deployments in which one address holds both roles of the gateway and of the gas service (each role must then move, or stay, on its own), one of 7 principal classes: current holder, former holder, holder of another role, beneficiary named in the arguments, stranger, nobody, holder-authorised-other-arguments). The full 29x7 matrix with an empty history is enumerated in every run (fixed cases), once in the ordinary state and once with the contract's migration window open (upgraded, not yet migrated); for the idempotent entry points (role transfers, add/remove minter, upgrade) also the variant in which the same change was already applied once; proptest adds histories of 1-5 transfers (incl. to self, to the other role's holder, and back). Engine: the authorisation trees the call needs are recorded in a twin world with all auths mocked, then replayed in a fresh identical world in which exactly one principal signs the tree recorded for the role holder. Oracle: role model: success iff that principal is the current holder (and signed these exact arguments); refusals must leave the ledger snapshot identical; after an accepted transfer the role query names exactly the successor. non-trivial = principal is not simply the initial holder (principal class != Holder, or history non-empty); distinct by Debug hash. A share of the random cases is an entry-point sweep (the exported functions of all shipped contracts are read from the sources of the tree under test; entry points absent from the pinned inventory get 300 deterministic cases each and half of the random sweep cases): one entry point is called on a fully deployed system (gateway, gas service, operators, token service with a deployed token owned by the service, stand-alone token, upgrader, example app; some contracts optionally upgraded-but-not-migrated) with arguments from pools of principals / contracts / tokens / names / ids / boundary amounts, every require_auth satisfied by the host's mock and recorded; cases where the mock let a contract sign are discarded; oracle: a change of any contract's owner, of the gateway operator, of the operator set, of the trusted chains, of a token's minters, or of a contract's code / migration state needs the current holder of the governing role among the recorded signers (or to be the called contract); non-trivial = the call succeeded Since round 12 the holder may also have signed the same entry point with exactly one argument differing (address named / amount / message id / token, for collect_fees, refund, mint, mint_from): must be refused."
     }
     fn fixed_is_exhaustive(&self) -> Option<&'static str> {
         Some("entry-point x principal matrix (29 x 7) with empty role history enumerated completely; histories sampled")
